@@ -713,16 +713,7 @@ func runConc(job *spec.Job) spec.Result {
 		}
 		return &job.Res[0]
 	}
-	// solo references, same task-local streams
-	for i := range job.Calls {
-		a, err := buildArgs(&job.Calls[i], nil)
-		if err != nil {
-			return spec.Result{Error: err.Error()}
-		}
-		ec := &execCtx{job: job}
-		res.Solo = append(res.Solo, runOne(ec, &job.Calls[i], a, resOf(i), nil))
-	}
-	// concurrent run
+	// concurrent run first: package-level state that is initialised lazily is still cold in a fresh process
 	simrt.ResetSync()
 	sc := simrt.SchedCfg{Policy: "random", MaxSteps: 1 << 24}
 	if job.Sched != nil {
@@ -760,6 +751,15 @@ func runConc(job *spec.Job) spec.Result {
 			}
 		}
 		res.Outcomes = append(res.Outcomes, oc)
+	}
+	// solo references afterwards, same task-local streams
+	for i := range job.Calls {
+		a, err := buildArgs(&job.Calls[i], nil)
+		if err != nil {
+			return spec.Result{Error: err.Error()}
+		}
+		ec := &execCtx{job: job}
+		res.Solo = append(res.Solo, runOne(ec, &job.Calls[i], a, resOf(i), nil))
 	}
 	for _, c := range s.Conflicts {
 		name := fmt.Sprintf("var#%d", c.Var)
